@@ -363,6 +363,11 @@ func checkC16() int {
 		}
 		envs = append(envs, e)
 	}
+	// long protocols: 65..150 unannotated states, the mode fixed by the last one
+	for k := 0; k < c.pick(12, 200); k++ {
+		defs := rtypes.GenChainDefs(r)
+		envs = append(envs, &envCase{defs: defs, an: rtypes.Analyze(defs), text: rtypes.DefsText(defs)})
+	}
 	c.Extra["cycle_environments_wellformed"] = cyc
 	type variant struct {
 		env  *envCase
@@ -550,6 +555,12 @@ func checkC15() int {
 	for _, pc := range cases {
 		jobs = append(jobs, sup.Job{Kind: "termrt", Text: pc.Text})
 		src = append(src, pc.Text)
+		// the same program with identifiers of 70..120 characters
+		if q, _ := mut.Inflate(pc.P, mr, "long-names"); q != nil && len(jobs)%3 == 0 {
+			t := q.Text()
+			jobs = append(jobs, sup.Job{Kind: "termrt", Text: t})
+			src = append(src, t)
+		}
 		// explicit polarities (either sign: printing does not depend on typing) on payloads,
 		// continuations, arguments and on the binders of recv / split / case / cut
 		for k := 0; k < 3; k++ {
@@ -568,10 +579,13 @@ func checkC15() int {
 			c.Violation("printing or re-parsing kills the host: "+normDeath(o.Deaths[0]), map[string]interface{}{"text": src[i]})
 			continue
 		}
-		if o.Res == nil || !o.Res.ParseOK {
-			if o.Res == nil {
-				c.Inconc("watchdog")
-			}
+		if o.Res == nil {
+			c.Inconc("watchdog")
+			continue
+		}
+		if !o.Res.ParseOK {
+			// every text of this workload is grammatical by construction
+			c.Violation("a generated text does not parse, so nothing can be printed from it: "+errClass(o.Res.ParseErr), map[string]interface{}{"text": clip(src[i], 4000), "parse_error": o.Res.ParseErr})
 			continue
 		}
 		for _, rt := range o.Res.RoundTrip {
@@ -619,6 +633,9 @@ func polOpt(i int) *gen.Opt {
 	o := gen.Opt{MaxSplit: 3, Pol: 0, Alias: 30, ExplicitSelf: 15, ExplicitProv: 0, Exec: 10, Print: 10, TopMax: 3, Fuel: 3, MultiProv: 20, Drop: 12, Split: 12, Mixed: i%3 == 0, MainMode: []vast.Mode{vast.Lin, vast.Rep, vast.Aff, vast.Mul}[i%4]}
 	if i%2 == 1 {
 		o.Pol = 25
+	}
+	if i%4 >= 2 {
+		o.Alpha = 60 // bound names with every initial letter
 	}
 	return &o
 }
